@@ -789,6 +789,50 @@ func (na *NilAnalysis) globalNonNil(v *types.Var) bool {
 	return false
 }
 
+// GlobalInit returns the initialiser of a package-level variable that is never assigned again (nor
+// has its address taken) anywhere in its package; nil otherwise.
+func (p *Prog) GlobalInit(v *types.Var) ast.Expr {
+	if v == nil || v.Pkg() == nil || v.Parent() != v.Pkg().Scope() {
+		return nil
+	}
+	pk := p.Pkgs[v.Pkg().Path()]
+	if pk == nil {
+		return nil
+	}
+	info := pk.TypesInfo
+	var init ast.Expr
+	stored := false
+	for _, file := range pk.Syntax {
+		ast.Inspect(file, func(n ast.Node) bool {
+			switch x := n.(type) {
+			case *ast.ValueSpec:
+				for i, nm := range x.Names {
+					if info.Defs[nm] == v && i < len(x.Values) {
+						init = x.Values[i]
+					}
+				}
+			case *ast.AssignStmt:
+				for _, l := range x.Lhs {
+					if id, ok := l.(*ast.Ident); ok && info.ObjectOf(id) == v {
+						stored = true
+					}
+				}
+			case *ast.UnaryExpr:
+				if x.Op == token.AND {
+					if id, ok := x.X.(*ast.Ident); ok && info.ObjectOf(id) == v {
+						stored = true
+					}
+				}
+			}
+			return true
+		})
+	}
+	if stored {
+		return nil
+	}
+	return init
+}
+
 // ReachingAssign returns the right-hand side of the latest straight-line assignment to o that
 // precedes node `at` in one of its enclosing statement lists (nil when the reaching definition is
 // not a single straight-line assignment).
